@@ -305,8 +305,9 @@ func (w *WAL) newSegment(ID, baseIndex uint64) types.SegmentInfo {
 		MinIndex:  baseIndex,
 		SizeLimit: uint32(w.segmentSize),
 
-		// TODO make these configurable
-		Codec:      CodecBinaryV1,
+		// Record the configured codec so that custom codecs can re-open their own
+		// segments and other codecs are refused.
+		Codec:      w.codec.ID(),
 		CreateTime: time.Now(),
 	}
 }
